@@ -538,6 +538,8 @@ def run_xref_cases(ctx: C.Ctx, record) -> None:
                 return "I%d" % pos[c[1]]
             if c[0] == "garbage":
                 return "I%d" % gpos
+            if c[1][0] == "null":
+                return "X"          # the parser drops null-valued dictionary entries: the key is absent
             return tok(c[1])
         line = "xref 0 %d %d " % (start, k) + " ".join("%d %s %s" % (pos[i], field_tok(secs[i]["stm"]), field_tok(secs[i]["prev"]))
                                                        for i in range(k))
